@@ -64,7 +64,7 @@ impl Monitor for C17 {
 		"well-formed replays (all layouts, random histories with absences/rollbacks/items/gecko) are made irregular by every combination of: unknown events (declared in the table) at random boundaries incl. inside frames; junk bytes after Game End inside the raw element (not a duplicate end); a random permutation of each frame's Pre/Post/Item events that keeps Frame Start first, Frame End last and each character's Pre before its Post; Game End removed; metadata removed. For every such file the reader accepts: w = write(read(y)) must (1) be parsed by the independent reference model with declared raw length == actual raw element length, (2) be readable, with start/end/metadata/gecko/every column/validity/item offsets equal to those of read(y), (3) satisfy write(read(w)) == w byte for byte. One evaluation = one irregular file. distinct = irregularity combination x regime classes.".into()
 	}
 	fn n_cases(&self, ctx: &Ctx) -> usize {
-		ctx.tier.pick(4000, 200000)
+		ctx.tier.pick(16000, 400000)
 	}
 	fn min_classes(&self, _tier: Tier) -> usize {
 		40
